@@ -19,7 +19,7 @@ from .state import OutOfReach
 from . import prelude, streams, builtins
 from .interface import Interface
 
-PARGS = [t.INT, t.ARR, t.INT, t.INT, 'Heap', 'Dom', t.INT]
+PARGS = [t.INT, t.ARR, t.INT, t.INT, t.INT, 'Heap', 'Dom', t.INT]      # sub, buffer, length, position, absolute base of the stream, heap, dom, context
 for nm, ret in (('P_ok', t.BOOL), ('P_val', t.VAL), ('P_end', t.INT), ('P_exc', t.INT), ('P_H', 'Heap'), ('P_D', 'Dom')):
     prelude.declare_fun(nm, PARGS, ret)
 BARGS = [t.INT, t.VAL, t.INT, 'Heap', 'Dom', t.INT]
@@ -213,10 +213,8 @@ class ConstructInterface(Interface):
             end = None
         else:
             base = o.offset if o.model == 'offsets' else t.ZERO
-            a = (sc.ident, o.buf, o.len, o.pos, H, D, c)
-            if o.model == 'offsets':
-                # results may depend on absolute offsets (Tell, Pointer): include the parent offset in the key
-                a = (t.add(t.mul(sc.ident, I(1)), t.ZERO), o.buf, o.len, o.pos, H, D, c)
+            # results may depend on absolute offsets (Tell, RawCopy, Pointer inside a substream): the base is an argument
+            a = (sc.ident, o.buf, o.len, o.pos, base, H, D, c)
             ok = t.app('P_ok', t.BOOL, *a)
             val, ec = t.app('P_val', t.VAL, *a), t.app('P_exc', t.INT, *a)
             H2, D2 = t.app('P_H', 'Heap', *a), t.app('P_D', 'Dom', *a)
@@ -677,3 +675,16 @@ class ConstructInterface(Interface):
                 arr._s = '((as const (Array Int Val)) %s)' % elt.smt()
                 return [(st, st.alloc(OList(arr=arr, ln=n, ekind='val'), 'list'))]
         return None
+
+
+    # ----------------------------------------------------------------- super() inside BytesIOWithOffsets (its base is io.BytesIO)
+    def super_call(self, eng, attr, node, st):
+        selfv = st.env.get('self')
+        o = st.get(selfv) if isinstance(selfv, VRef) else None
+        if isinstance(o, OStream) and o.model == 'bytesio' and attr in ('tell', 'seek', 'read', 'write', 'getvalue'):
+            def k(st1, vs):
+                args = vs[:len(node.args)]
+                kws = dict(zip([kw.arg for kw in node.keywords], vs[len(node.args):]))
+                return streams.bytesio_method(self.models, eng, selfv, st1.get(selfv), attr, args, kws, st1)
+            return eng.bind(eng.ev_list(list(node.args) + [kw.value for kw in node.keywords], st), k)
+        raise OutOfReach('super().%s' % attr)
